@@ -101,7 +101,12 @@ func (c *osExecCommand) SetStderr(w io.Writer) {
 // exec runs an ExecCommand and delivers the results to the program as a Msg.
 func (p *Program) exec(c ExecCommand, fn ExecCallback) {
 	if err := p.ReleaseTerminal(); err != nil {
-		// If we can't release input, abort.
+		// If we can't release input, abort. ReleaseTerminal has already
+		// stopped the input reader and the renderer and is ignoring
+		// signals by the time it fails: take all of that back, or the
+		// program would go on without input, without painting and deaf to
+		// SIGINT and SIGTERM.
+		_ = p.RestoreTerminal()
 		if fn != nil {
 			go p.Send(fn(err))
 		}
